@@ -12,13 +12,19 @@ MANIFEST = dict(
     text="Lean 4 theorems over a code-shaped executable model of IPv4Address / IPv6Address / HWAddress<n>, "
          "Internals::increment/decrement, AddressRange and its iterator (order = numeric order, equality, masks, "
          "prefix ranges, contains, iteration visits exactly [first..last] / the hosts for every range incl. those ending "
-         "at all-ones, hardware-address text codec = reference grammar), tied to the code by differential correspondence "
-         "under ASan/UBSan and by a numeric spec oracle evaluated on the implementation's own output.",
+         "at all-ones, hardware-address text codec = reference grammar, IPv4 and IPv6 text: the inet_pton reference models "
+         "= the strict dotted-quad / RFC 4291 grammars for every string, inet_ntop6 reference model = RFC 5952 canonical "
+         "text and parse(print(a)) = a for all 2^128 addresses), tied to the code by differential correspondence "
+         "under ASan/UBSan and by a numeric / RFC-grammar spec oracle evaluated on the implementation's own output.",
     note="Trusted: Lean kernel + standard axioms; hand-written model tied by correspondence (harness/c16_address.cpp); "
-         "IPv6 text <-> bytes is libc inet_pton/inet_ntop on both sides (correspondence-only, reference = Python's "
-         "socket.inet_pton/ntop = the same libc); inet_pton(AF_INET) is a Lean reference parser validated against libc; "
-         "std::hash<string>/std::hash<uint32_t> are libstdc++.",
-    technique="Lean 4 proof (induction over address bytes / range length) + model/impl correspondence + spec oracle",
+         "libc itself: IPv6Address(text) / to_string() are inet_pton / inet_ntop(AF_INET6) and IPv4Address(text) is "
+         "inet_pton(AF_INET) — the theorems are about Lean reference models of these glibc routines (V6.pton6, V6.ntop6, "
+         "V4.pton4Loop), which are compared with the linked libc through libtins on every run (structured generator: all 256 "
+         "zero patterns of the eight groups, every '::' placement, embedded-IPv4 forms and near misses, case / padding "
+         "variants, every malformed shape, random edits); the oracle answers from Spec.parse6 / Spec.fmt6 (RFC 4291 / 5952), "
+         "not from the algorithm model; std::hash<string>/std::hash<uint32_t> are libstdc++.",
+    technique="Lean 4 proof (induction over address bytes / range length / text; zero-pattern abstraction for the '::' run) "
+              "+ model/impl correspondence + spec oracle",
     design="DESIGN.md §6 C16")
 MANIFEST["note"] += (" Constants and limits of the C++ source that the model restates (translator/gen_limits.py -> Gen/Limits.lean: "
                      "compiled probe + preprocessed function bodies at named anchors) are tied to the model's numerals by the "
@@ -78,14 +84,6 @@ def near(rng, v, n):
 
 # ---------------------------------------------------------------------------- text generators
 
-def libc6(s):
-    """libc's answer for an IPv6 text (Python's socket module is a thin wrapper around inet_pton)."""
-    try:
-        return socket.inet_pton(socket.AF_INET6, s).hex()
-    except (OSError, ValueError):
-        return "x"
-
-
 def gen_text4(rng):
     r = rng.random()
     if r < 0.3:
@@ -137,13 +135,154 @@ def gen_texth(rng):
     return s.encode("latin-1").replace(b"\0", b"")
 
 
+V6_VALS = [[0x1, 0x12, 0x123, 0x1234, 0xffff, 0xa, 0xabc, 0xf00d],
+           [0xffff, 0x8000, 0x100, 0x10, 0xf, 0xff, 0xfff, 0x1000]]
+
+
+def v6_groups_to_int(gs):
+    v = 0
+    for g in gs:
+        v = (v << 16) | g
+    return v
+
+
+def v6_pattern_groups(pat, variant=0):
+    """zero pattern (bit i set = group i is zero) -> 8 groups with non-zero values of every digit length elsewhere"""
+    return [0 if (pat >> i) & 1 else V6_VALS[variant][i] for i in range(8)]
+
+
+def v6_ntop(v):
+    return socket.inet_ntop(socket.AF_INET6, (v % (1 << 128)).to_bytes(16, "big"))
+
+
+def v6_case(rng, s):
+    q = rng.random()
+    if q < 0.4:
+        return s
+    if q < 0.7:
+        return s.upper()
+    return "".join(c.upper() if rng.random() < 0.5 else c for c in s)
+
+
+def v6_text_of_groups(rng, gs, dc=None, pad=None, v4tail=False):
+    """a text form of the groups: `dc` = (start, len) of the groups replaced by "::" (must be zero groups for a valid text),
+    `pad` = number of digits every group is padded to (5 = one digit too many), v4tail = last two groups as dotted quad"""
+    def g2s(g):
+        t = "%x" % g
+        if pad:
+            t = t.rjust(pad, "0")
+        return t
+    n = 6 if v4tail else 8
+    parts = [g2s(g) for g in gs[:n]]
+    tail = ["%d.%d.%d.%d" % (gs[6] >> 8, gs[6] & 255, gs[7] >> 8, gs[7] & 255)] if v4tail else []
+    if dc is None:
+        return ":".join(parts + tail)
+    i, l = dc
+    return ":".join(parts[:i]) + "::" + ":".join(parts[i + l:] + tail)
+
+
+V6_SPECIAL = [
+    "::", "::1", "::2", "::ffff", "::1:0", "::0.1.0.0", "::0.0.255.255", "::1.2.3.4", "::255.255.255.255", "::0.0.0.0",
+    "::ffff:0.0.0.0", "::ffff:0.0.0.1", "::ffff:1.2.3.4", "::ffff:255.255.255.255", "::fffe:1.2.3.4", "::ffff:0:1.2.3.4",
+    "::1:ffff:1.2.3.4", "1::ffff:1.2.3.4", "0:0:0:0:1:ffff:1.2.3.4", "::ffff:ffff:1.2.3.4", "::fff:1.2.3.4", "::1:1.2.3.4",
+    "1::1.2.3.4", "0:1::1.2.3.4", "::0:ffff:0:0", "::ffff:0:0", "::ffff:0:1", "::ffff:1:0", "64:ff9b::1.2.3.4", "::1:0:0",
+    "::1:0:0:0", "1::", "1:0:0:0:0:0:0:0", "0:0:0:0:0:0:0:1", "ffff:ffff:ffff:ffff:ffff:ffff:ffff:ffff",
+    "1111:2222:3333:4444:5555:6666:7777:8888", "fe80::1", "2001:db8::1", "2001:db8:0:0:1:0:0:1", "2001:0:0:1::1",
+    "1:0:0:2:0:0:3:4", "1:0:0:2:0:0:0:4", "1:0:0:0:2:0:0:0", "0:0:1:0:0:1:0:0", "0:1:0:1:0:1:0:1", "1:0:1:0:1:0:1:0",
+]
+
+V6_MALFORMED = [
+    "", ":", ":::", "::::", ":1", "1:", ":1:2:3:4:5:6:7:8", "1:2:3:4:5:6:7:8:", ":1::", "::1:", ":::1", "1:::", "1:::2", "1::2::3",
+    "::1::", "1:2:3:4:5:6:7", "1:2:3:4:5:6:7:8:9", "1:2:3:4::5:6:7:8", "::1:2:3:4:5:6:7:8", "1:2:3:4:5:6:7:8::", "1:2:3:4:5:6:7::",
+    "::2:3:4:5:6:7:8", "1::3:4:5:6:7:8", "12345::", "::12345", "1:2:3:4:5:6:7:12345", "00000::", "::00001", "0000::", "g::", "::g",
+    "1::g", "::1g", "fe80::1%eth0", "fe80::1%1", "::1%", "%", "[::1]", "::1/128", "::/0", " ::1", "::1 ", ": :", "1: :2", "::\t1",
+    "::1\n", "0x1::", "::0x1", "::-1", "::+1", "1;:2", "1.2.3.4", "1.2.3.4::", "::1.2.3.4:1", "1.2.3.4:1::", "::1.2.3", "::1.2.3.4.5",
+    "::1.2.3.", "::.1.2.3", "::1..2.3", "::256.1.1.1", "::1.2.3.256", "::01.2.3.4", "::1.2.3.04", "::1.2.3.4.", "::a.2.3.4",
+    "::1a.2.3.4", "::1.2.3.a", "::1.2.3.4a", "::12345.2.3.4", "::1234.2.3.4", "::0.0.0.0", "::00.0.0.0", "1:2:3:4:5:6:7:1.2.3.4",
+    "1:2:3:4:5:6:1.2.3.4", "1:2:3:4:5:1.2.3.4", "1:2:3:4:5:6:7:8:1.2.3.4", "1:2:3:4:5::1.2.3.4", "1:2:3:4:5:6::1.2.3.4",
+    "::1:2:3:4:5:1.2.3.4", "::1:2:3:4:5:6:1.2.3.4", "1.2.3.4:5:6:7:8:9:a", "::ffff:1.2.3.4", "::FFFF:1.2.3.4", "::ffff:1.2.3.4:5",
+    "::ffff:1:2.3.4.5", "1:2:3:4:5:6:7:8%9", "::\xff", "\xff::", "::\x80", "1::\xe9", ":::1.2.3.4", "::1.2.3.4::", "1::2:", ":1::2",
+    "abcd:ef01:2345:6789:ABCD:EF01:2345:6789", "ABCD::", "::aBcD", "0:0:0:0:0:0:0:0", "0::0", "0::", "::0", "0:0::0:0", "00:000:0000::",
+    "0001:002:03:4::", "1::8", "::ffff:", "::ffff:.", ".", "..", "::.", ":.:", "1.", "::1.", "::1.2", "1::2.3", "::1:2.3.4.5.6",
+    ",", "::,", "1:2:3:4:5:6:7:8\x01", "::G", "::@", "::`", "::/", "::9:", "::a:", "::A:", "::f:", "::F:", "::g:",
+]
+
+
+def v6_boundary_ops():
+    """IPv6 text, enumerated: every zero pattern of the eight groups (all positions and lengths of the compressed run, all ties),
+    in several writings; the embedded-IPv4 forms and their near misses; every malformed shape."""
+    rng = random.Random(616)
+    ops = []
+    fmt = lambda v: ops.append(f"fmt 6 {hx(v, 16)}")
+    txt = lambda t: ops.append(f"txt 6 {thex(t.encode('latin-1').replace(bytes([0]), b''))}")
+    for pat in range(256):
+        for variant in (0, 1):
+            gs = v6_pattern_groups(pat, variant)
+            v = v6_groups_to_int(gs)
+            fmt(v)
+            canon = v6_ntop(v)
+            txt(canon if variant == 0 else canon.upper())
+        gs = v6_pattern_groups(pat, 0)
+        txt(v6_text_of_groups(rng, gs))                              # nothing compressed
+        txt(v6_text_of_groups(rng, gs, pad=4))                       # every group four digits
+        txt(v6_text_of_groups(rng, gs, v4tail=True))                 # dotted-quad tail
+        zeros = [i for i in range(8) if gs[i] == 0]
+        # every placement of "::" over zero groups of this pattern (any sub-run, also a single group)
+        runs = [(i, l) for i in range(8) for l in range(1, 9 - i) if all(gs[j] == 0 for j in range(i, i + l))]
+        for dc in rng.sample(runs, min(3, len(runs))):
+            txt(v6_case(rng, v6_text_of_groups(rng, gs, dc=dc, pad=rng.choice([None, None, 2, 3, 4]))))
+            if dc[0] + dc[1] <= 6:
+                txt(v6_text_of_groups(rng, gs, dc=dc, v4tail=True))
+        if pat % 8 == 0:
+            txt(v6_text_of_groups(rng, gs, pad=5))                   # five digits: not an address
+            # "::" over a group that is not zero / with nothing left to stand for
+            txt(v6_text_of_groups(rng, gs, dc=(rng.randrange(8), 0)))
+    # all start x length combinations once more with one run only (the other groups non-zero), both value sets
+    for start in range(8):
+        for ln in range(0, 9 - start):
+            pat = sum(1 << i for i in range(start, start + ln))
+            for variant in (0, 1):
+                fmt(v6_groups_to_int(v6_pattern_groups(pat, variant)))
+    for t in V6_SPECIAL:
+        b = socket.inet_pton(socket.AF_INET6, t)
+        fmt(int.from_bytes(b, "big")); txt(t); txt(t.upper())
+    for low in (0, 1, 0xff, 0x100, 0xffff, 0x10000, 0x10001, 0xffffff, 0x1000000, 0x7fffffff, 0xffffffff, 0x01020304, 0xc0a80001):
+        for hi in (0, 0xffff, 0xfffe, 0x1, 0x10000, 0xffff0000, 0x1ffff, 0xffffffff):
+            fmt((hi << 32) | low)
+    for t in V6_MALFORMED:
+        txt(t)
+    return ops
+
+
 def gen_text6(rng):
     r = rng.random()
-    if r < 0.3:
+    if r < 0.25:
         v = rand_addr(rng, 16)
-        s = socket.inet_ntop(socket.AF_INET6, v.to_bytes(16, "big"))
-        if rng.random() < 0.3:
-            s = s.upper()
+        s = v6_case(rng, v6_ntop(v))
+    elif r < 0.45:
+        # a valid writing of an address with a random zero pattern: random "::" placement, padding, case, v4 tail
+        pat = rng.randrange(256)
+        gs = [0 if (pat >> i) & 1 else rng.choice([rng.randrange(1, 16), rng.randrange(16, 256), rng.randrange(256, 4096),
+                                                    rng.randrange(4096, 65536)]) for i in range(8)]
+        runs = [(i, l) for i in range(8) for l in range(1, 9 - i) if all(gs[j] == 0 for j in range(i, i + l))]
+        v4 = rng.random() < 0.25
+        if v4:
+            runs = [d for d in runs if d[0] + d[1] <= 6]
+        dc = rng.choice(runs) if runs and rng.random() < 0.7 else None
+        s = v6_case(rng, v6_text_of_groups(rng, gs, dc=dc, pad=rng.choice([None, None, None, 2, 3, 4, 5]), v4tail=v4))
+    elif r < 0.7:
+        # one edit of a valid text
+        s = rng.choice(V6_SPECIAL) if rng.random() < 0.4 else v6_ntop(rand_addr(rng, 16))
+        for _ in range(rng.choice([1, 1, 1, 2])):
+            i = rng.randrange(len(s) + 1)
+            q = rng.random()
+            c = rng.choice(":::..0019afAFg%/ x")
+            if q < 0.4:
+                s = s[:i] + c + s[i:]
+            elif q < 0.7 and s:
+                s = s[:i] + s[i + 1:]
+            else:
+                s = s[:i] + c + s[i + 1:]
     else:
         def group():
             q = rng.random()
@@ -162,6 +301,18 @@ def gen_text6(rng):
             s += rng.choice(["::", ":", "/64", "%1", ":1.2.3.4"])
     b = s.encode("latin-1").replace(b"\0", b"")
     return b
+
+
+def rand_addr6_text(rng):
+    """addresses for `fmt 6`: random zero patterns / embedded-IPv4 shapes besides the generic distribution"""
+    q = rng.random()
+    if q < 0.35:
+        pat = rng.randrange(256)
+        return v6_groups_to_int([0 if (pat >> i) & 1 else rng.choice([1, 0xf, 0x10, 0xff, 0x100, 0xfff, 0x1000, 0xffff,
+                                                                       rng.randrange(1, 65536)]) for i in range(8)])
+    if q < 0.5:
+        return (rng.choice([0, 0xffff, 0xfffe, 1, 0x10000]) << 32) | rng.choice([0, 1, 0xffff, 0x10000, rng.randrange(1 << 32)])
+    return rand_addr(rng, 16)
 
 
 # ---------------------------------------------------------------------------- op generators
@@ -210,15 +361,10 @@ def gen_ops(rng, count, max_iter):
             elif tf == "h":
                 ops.append(f"txt h {thex(gen_texth(rng))}")
             else:
-                b = gen_text6(rng)
-                ops.append(f"txt 6 {thex(b)} {libc6(b.decode('latin-1'))}")
+                ops.append(f"txt 6 {thex(gen_text6(rng))}")
         elif k < 0.42:
-            a = rand_addr(rng, n)
-            if f == "6":
-                ref = socket.inet_ntop(socket.AF_INET6, a.to_bytes(16, "big"))
-                ops.append(f"fmt 6 {hx(a, n)} {thex(ref)}")
-            else:
-                ops.append(f"fmt {f} {hx(a, n)}")
+            a = rand_addr6_text(rng) if f == "6" else rand_addr(rng, n)
+            ops.append(f"fmt {f} {hx(a, n)}")
         elif k < 0.57:
             a = rand_addr(rng, n)
             if rng.random() < 0.75:
@@ -289,10 +435,7 @@ def boundary_ops(thorough):
             ops.append(f"cmp {f} {hx(v, n)} {hx(v, n)}")
             ops.append(f"cmp {f} {hx(v, n)} {hx((v + 1) % M, n)}")
             ops.append(f"cmp {f} {hx(v, n)} {hx((v + 256) % M, n)}")
-            if f == "6":
-                ops.append(f"fmt 6 {hx(v, n)} {thex(socket.inet_ntop(socket.AF_INET6, v.to_bytes(16, 'big')))}")
-            else:
-                ops.append(f"fmt {f} {hx(v, n)}")
+            ops.append(f"fmt {f} {hx(v, n)}")
     # the hardware text parser's boundary strings
     for s in ["", ":", "::", "0", "00", "000", "0:", ":0", "0:1", "0:1:2:3:4:5", "00:11:22:33:44:55", "00:11:22:33:44:5",
               "00:11:22:33:44:55:", "00:11:22:33:44:55:66", "00:11:22:33:44:55:zz", "00:11:22:33:44:55zz", "00:11:22:33:44:555",
@@ -307,7 +450,8 @@ def boundary_ops(thorough):
     for s in ["::", "::1", "1::", "::1.2.3.4", "::ffff:1.2.3.4", "1:2:3:4:5:6:7:8", "1:2:3:4:5:6:7", "1:2:3:4:5:6:7:8:9", "1::2::3",
               ":1", "1:", "12345::", "g::", "1:2:3:4:5:6:1.2.3.4", "1:2:3:4:5:6:7:1.2.3.4", "::1.2.3", "::1.2.3.256", "", ":::",
               "fe80::1%eth0", "FFFF:ffff:FFFF:ffff:FFFF:ffff:FFFF:ffff", "0:0:0:0:0:0:0:0", "1::8", "::01.2.3.4"]:
-        ops.append(f"txt 6 {thex(s)} {libc6(s)}")
+        ops.append(f"txt 6 {thex(s)}")
+    ops += v6_boundary_ops()
     return ops
 
 
@@ -384,6 +528,8 @@ def run(chk):
                        "for IPv4, IPv6 and HWAddress<6>; distinct_nontrivial counts distinct (operation, implementation result) pairs")
     chk.assumptions += [
         "texts handed to the constructors contain no NUL byte (IPv4/IPv6 constructors take the C string)",
+        "glibc >= 2.26 inet_pton6 (a group of five hex digits is refused even when its value fits 16 bits); the reference model "
+        "follows that algorithm and the correspondence would show an older / different libc as a model difference",
         "prefix lengths range over -300..8n+2 (outside 0..8n the only requirement is std::logic_error)",
         f"iterations are cut after {CAP} steps: longer ranges are checked on their first {CAP} addresses and on not having terminated",
         "a HWAddress hash collision between different addresses would show as a model difference (std::hash<std::string>)",
@@ -393,13 +539,18 @@ def run(chk):
     chk.trusted += ["correspondence harness harness/c16_address.cpp (compiled with -fno-access-control to print first_/last_) "
                     "+ generators in checks/C16.py",
                     "g++ 12 / ASan+UBSan build of the repo's working tree",
-                    "libc inet_pton/inet_ntop (IPv6 text is libc on both sides: correspondence-only, reference via Python socket)",
+                    "libc inet_pton / inet_ntop (AF_INET and AF_INET6) themselves: libtins only calls them; the Lean reference models "
+                    "V4.pton4Loop / V6.pton6 / V6.ntop6 (proved equal to Spec.parse4 / Spec.parse6 / Spec.fmt6, round trip proved) are "
+                    "compared with the linked libc through IPv6Address(string), IPv6Address(const char*), to_string(), operator<< on every run",
                     "libstdc++ std::hash<uint32_t> (identity) and std::hash<std::string>"]
-    chk.extra["modelled_not_proved"] = ["std::hash<IPv6Address> value (modelled bit-exactly, only congruence is a theorem)",
-                                        "IPv6 text <-> bytes (libc on both sides; the reference answer of libc is echoed by the model)",
-                                        "inet_pton(AF_INET) itself is libc: the Lean reference model V4.pton4Loop (proved equal to "
-                                        "the strict dotted-quad grammar Spec.parse4) is compared with libc on every run",
-                                        "big-endian #if branch of endianness.h"]
+    chk.extra["modelled_not_proved"] = [
+        "std::hash<IPv6Address> VALUE (modelled bit-exactly and compared on every cmp op): the property needs only that equal "
+        "addresses hash equally — hash_congr, proved; which number comes out is the boost-style combine over libstdc++'s size_t "
+        "and no statement of C16 depends on it",
+        "inet_pton / inet_ntop themselves are libc, not libtins: every IPv4 / IPv6 text theorem (ipv4_accept_iff, pton6_is_spec, "
+        "ntop6_canonical, ntop6_roundtrip, ipv6_text_roundtrip) is about the Lean reference models; that the linked libc "
+        "behaves like them is validated on every run, not proved",
+        "big-endian #if branch of endianness.h"]
     corr.finalize_cov(chk)
 
 
